@@ -57,6 +57,7 @@ def check_object_eq(F, rep, rule, heap_types):
     PAYLOAD = ('object::Object::as_f64', 'object::Object::as_str', 'object::Object::as_vec', 'object::Object::get', 'object::Float::read', 'object::Array::read')
     differ_paths = 0
     differ_ok = True
+    early = []
     seen = {}
     for p in paths:
         rel = None      # True: tags known equal, False: known different
@@ -69,6 +70,11 @@ def check_object_eq(F, rep, rule, heap_types):
                 if a0[0] == 'call' and a0[1] == 'object::Object::tag' and a1[0] == 'call' and a1[1] == 'object::Object::tag':
                     rel = truth(c) != v[1].endswith('ne')
                     break
+        if rel is None and p.exit == 'return':
+            # an answer given before the two tags were compared (e.g. `if self.0 == other.0 { return true }`): equal words are not
+            # equal values for every type (a NaN float is not equal to itself), different words are not different values (strings)
+            early.append(show(p.env.get('_0'))[:40])
+            continue
         if rel is False:
             differ_paths += 1
             if not (p.exit == 'return' and p.env.get('_0') == ('int', 0, 'bool')) or any(c[1].startswith(PAYLOAD) for c in p.calls):
@@ -77,6 +83,7 @@ def check_object_eq(F, rep, rule, heap_types):
         vs = sorted({ty for o_, ty in tag_facts(p)}) or [v_ for _, v_ in variant_constraints(p)][:1]
         for var in vs[:1]:
             seen.setdefault(var, []).append((p, rel))
+    rep.ob(not early, rule, name, 'no answer before the tags are compared', 'every returning path has compared the two tags first; paths that return earlier give: %s' % early[:3], fn.loc())
     rep.ob(differ_paths >= 1 and differ_ok, rule, name, 'tag comparison first', 'differing tags return false before any payload is looked at', fn.loc())
     tyvars = [n for n, _ in F.enum_variants(TYPE)]
     for var in tyvars:
@@ -256,7 +263,7 @@ def check_float_casts(ctx, rep, rule):
                 val = psc.strip(psc.sym(fn, st['rv']['op']))
                 lo = hi = False
                 for f in psc.facts_at(fn, b):
-                    if f[0] in ('Gt', 'Ge', 'Lt', 'Le'):
+                    if f[0] in ('Gt', 'Ge', 'Lt', 'Le') and not (len(f) > 5 and f[5]):      # only comparisons that came out true exclude NaN
                         a, c = psc.strip(f[1]), psc.strip(f[2])
                         if a == val and f[0] in ('Gt', 'Ge'):
                             lo = True
@@ -266,5 +273,5 @@ def check_float_casts(ctx, rep, rule):
                             hi = True
                         if c == val and f[0] in ('Lt', 'Le'):
                             lo = True
-                rep.ob(lo and hi, rule, key, 'float->int cast#%d' % ordn, 'the value is bounded below and above by dominating tests before the saturating cast (lower %s, upper %s)' % (lo, hi), span_loc(st['span']))
+                rep.ob(lo and hi, rule, key, 'float->int cast#%d' % ordn, 'the value is bounded below and above by dominating comparisons that came out TRUE (a false `<=` does not exclude NaN) before the saturating cast (lower %s, upper %s)' % (lo, hi), span_loc(st['span']))
     rep.count('float_to_int_casts', n)
